@@ -91,8 +91,8 @@ def _run(ck, hb, quick, replay):
             ck.violation(EIT_TIE, "EIT gains differ between the two frames (GainEIT %.2e, GainEITInternalPot %.2e relative Frobenius): %s" %
                          (levels.get("GainEIT", 0), levels.get("GainEITInternalPot", 0), "; ".join(d[2] for d in dec) or "no decision difference seen"), rp)
     # 2. generated models x motions
-    nmod = 16 if quick else 60; nmot = 2 if quick else 4; level = 1
-    kinds = ["nested", "nested", "isolated", "nested", "split", "split", "inclusions", "inclusions", "nonconductive", "isolated", "nested"]
+    nmod = 18 if quick else 60; nmot = 2 if quick else 4; level = 1
+    kinds = ["nested", "capball", "isolated", "nested", "split", "split", "inclusions", "capball", "nonconductive", "isolated", "nested", "inclusions", "capball"]
     items = []
     for n in range(nmod):
         kd = kinds[n % len(kinds)] if n < len(kinds) else ck.rng.choice(kinds)
